@@ -254,6 +254,8 @@ void ResultPrint::printresv(int res)
         strlog(resstr, "Aes / hash mode not match.");
     else if (res == 4)
         strlog(resstr, "Wrong magic number.");
+    else if (res == 5)
+        strlog(resstr, "Output file could not be written.");
     else
         strlog(resstr, "Unknown res number: " + std::to_string(res));
     over = true;
